@@ -238,6 +238,48 @@ func runC09on(c *Check, w *World) {
 					if bArg >= 0 {
 						ctSites++
 						siteFns[f] = true
+						// S7: the HMAC-derived operand reaches the comparator whole: ConstantTimeCompare returns at once when
+						// the lengths differ, so an operand whose length depends on its content (trimmed, cut at a
+						// separator) turns the length test into an early exit on the secret code
+						var lenDep func(v ssa.Value, depth int) string
+						lenDep = func(v ssa.Value, depth int) string {
+							if depth > 6 || v == nil {
+								return ""
+							}
+							switch y := v.(type) {
+							case *ssa.Convert:
+								return lenDep(y.X, depth+1)
+							case *ssa.ChangeType:
+								return lenDep(y.X, depth+1)
+							case *ssa.Slice:
+								if y.Low != nil || y.High != nil {
+									if _, lc := y.Low.(*ssa.Const); y.Low != nil && !lc {
+										return "a slice with a computed bound"
+									}
+									if _, hc := y.High.(*ssa.Const); y.High != nil && !hc {
+										return "a slice with a computed bound"
+									}
+								}
+								return lenDep(y.X, depth+1)
+							case *ssa.Call:
+								n := CalleeName(y.Common())
+								if strings.HasPrefix(n, "strings.") || strings.HasPrefix(n, "bytes.") || strings.HasPrefix(n, "regexp.") || strings.HasPrefix(n, "(*regexp.") {
+									return n
+								}
+							case *ssa.Phi:
+								for _, e := range y.Edges {
+									if why := lenDep(e, depth+1); why != "" {
+										return why
+									}
+								}
+							}
+							return ""
+						}
+						if why := lenDep(args[hArg], 0); why != "" {
+							c.Bad("S7", fname, construct+"@whole-operand", "the HMAC-derived operand of the constant-time comparison went through "+why+": its length depends on its content, and the comparator's length test is an early exit", w.InstrPos(in))
+						} else {
+							c.OK("S7", fname, construct+"@whole-operand", "the HMAC-derived operand is handed over whole (no content-dependent length)", w.InstrPos(in))
+						}
 						// S6: the comparison is not itself conditional on the verdict of another comparison of the code
 						// (two partial comparisons joined by && leak which part failed through the work done)
 						var dep ssa.Value
